@@ -104,7 +104,7 @@ pub proof fn lemma_true_p_holds(cs: Seq<Vec<Literal>>, m: PartialModel, env: Env
     }
 }
 /// A-sat, `decide` answering SAT: with the flag's meaning (unit satsolver: SAT <=> every clause of the solver's list has a true literal) and
-/// the shape of that list (wnorm: a postcondition of SATSolver::new, relative to A-normalise), the full clause of the interface -- SAT => every extension satisfies the formula -- holds
+/// the shape of that list (wnorm: a proved postcondition of SATSolver::new), the full clause of the interface -- SAT => every extension satisfies the formula -- holds
 pub proof fn lemma_refines_decide_ok_sat(s: SATSolver, pm0: iface::PM, m0: PartialModel, lit: Literal, pm2: iface::PM, m2: PartialModel)
     requires rep(pm0, m0), rep(pm2, m2), extends(m2, m0), m2.val(lit.lbl) == Some(lit.pol), entailed(s.cs(), m0, lit, m2),
         wnorm(s), s.all_wtrue(m2),
